@@ -6,6 +6,12 @@
 From Coq Require Import List NArith Bool Arith.
 From Astisub Require Import Kit.Base Kit.Scan Model.Srt Model.Vtt Proofs.ScanProofs Proofs.SrtIOProofs Proofs.VttIOProofs.
 From Astisub Require Import Model.Ssa Proofs.SsaIOProofs.
+   schedule-independent.  STL: a block that is present in full is returned whole for every schedule, fewer bytes than a
+   block give end-of-file (none) or an error (some) for every schedule, and ReadFromSTL with its blocks obtained through
+   readNBytes under any schedule (each block read continuing where the previous one stopped; a block split across
+   reads, zero-length reads, data arriving with the end-of-file) equals the one-shot reader (C17_stl).
+   TTML and teletext hand the stream to encoding/xml and astits: covered by the harness only. *)
+From Astisub Require Import Model.Stl Model.StlIO Proofs.StlIOProofs.
 Import ListNotations.
 Open Scope N_scope.
 
@@ -43,6 +49,19 @@ Proof. exact read_ssa_schedule_independent. Qed.
 Theorem C17_stl_block : forall n data counts, (n <= length data)%nat ->
   exists cs, read_n n data counts = RnOk (firstn n data) (skipn n data) cs.
 Proof. exact read_n_full. Qed.
+
+(* fewer than n bytes left: io.EOF when none, an error when some, whatever the schedule *)
+Theorem C17_stl_block_short : forall n data counts, (length data < n)%nat ->
+  read_n n data counts = match data with [] => RnEOF | _ => RnShort end.
+Proof. exact read_n_short_any. Qed.
+(* the STL reader under any schedule *)
+Theorem C17_stl : forall ign data counts, read_stl_sched ign data counts = read_stl ign data.
+Proof. exact read_stl_schedule. Qed.
+Theorem C17_stl_schedule_independent : forall ign data counts counts', read_stl_sched ign data counts = read_stl_sched ign data counts'.
+Proof. exact read_stl_schedule_independent. Qed.
+Print Assumptions C17_stl_block_short.
+Print Assumptions C17_stl.
+Print Assumptions C17_stl_schedule_independent.
 
 (* non-vacuity: CR LF cut between two reads, a lone CR, an unterminated last line *)
 Example C17_example : scan [97; 13; 10; 98; 13; 99] [2%nat; 0%nat; 1%nat] = [[97]; [98]; [99]] /\ lines [97; 13; 10; 98; 13; 99] = [[97]; [98]; [99]].
